@@ -270,7 +270,7 @@ DECIMALS = [0.1, 0.2, 0.3, 1 / 3.0, 2 / 3.0, 1.1, 3.14159265358979, 2.7182818284
 
 
 def _check_float(part, s, x, nbits):
-    case = {'value': x.hex()}
+    case = {'value': x.hex(), 'nbits': nbits}
     for name, tol in (('S!', Fraction(1, 1 << 23)), ('D#', Fraction(1, 1 << 52))):
         ok, _ = _guard(part, 'float/' + name[-1], case, s.set_variable, name, x)
         if not ok:
@@ -666,7 +666,7 @@ def replay(ctx, leg, case):
         return work_str_unicode((case['codepage'], i, i + 1))
     if leg == 'float':
         s = H.new_session()
-        _check_float(part, s, float.fromhex(case['value']), 53)
+        _check_float(part, s, float.fromhex(case['value']), case.get('nbits', 24))
         return part
     if leg == 'evaluate':
         check_expr(part, H.new_session(), case['expr'])
